@@ -389,11 +389,18 @@ impl MarkdownEventsReader {
         let mut start = 0;
         let mut end = 0;
 
+        // a block that ends with the text (no final newline) ends where the newline would be
+        let range_end = if range.end == self.content.len() && !self.content.ends_with('\n') {
+            range.end + 1
+        } else {
+            range.end
+        };
+
         for (line, &line_start) in self.line_starts.iter().enumerate() {
             if line_start <= range.start {
                 start = line;
             }
-            if line_start <= range.end {
+            if line_start <= range_end {
                 end = line;
             }
         }
